@@ -58,6 +58,30 @@ mutual
     | _, _ => false
 end
 
+/-- A repeated member name: the name keeps the position of its FIRST appearance and the value of its
+    LAST one (C03 "in order of first appearance", C06 "lookups return the most recently stored
+    value"). -/
+def upsertKV (acc : List (Bytes × JV)) (k : Bytes) (v : JV) : List (Bytes × JV) :=
+  if acc.any (fun kv => kv.1 == k) then acc.map (fun kv => if kv.1 == k then (k, v) else kv)
+  else acc ++ [(k, v)]
+
+mutual
+  /-- The input tree with repeated names resolved at every depth (`upsertKV`): what the oracle
+      compares the output with. The identity on trees without repeated names. -/
+  def normDupV : JV → JV
+    | .obj ms => .obj (JVMembers.ofList (normDupM ms []))
+    | .arr xs => .arr (normDupL xs)
+    | v => v
+  def normDupM : JVMembers → List (Bytes × JV) → List (Bytes × JV)
+    | .nil, acc => acc
+    | .cons k v ms, acc => normDupM ms (upsertKV acc k (normDupV v))
+  def normDupL : JVList → JVList
+    | .nil => .nil
+    | .cons v xs => .cons (normDupV v) (normDupL xs)
+end
+
+def normDup (ms : JVMembers) : JVMembers := JVMembers.ofList (normDupM ms [])
+
 def hasDupKeys (ms : JVMembers) : Bool := (dedup (keysOf ms)).length != (keysOf ms).length
 
 def isContainer : JV → Bool
